@@ -539,9 +539,35 @@ var defPool = []string{
 	`{{define "h"}}{{.A}}{{end}}{{define "X"}}<a title="{{template "h" .}}">x</a>{{end}}{{define "Y"}}<a title="{{template "h" .}}">y</a>!{{end}}<a title="{{template "h" .}}">m</a>`,
 	`{{define "lnk"}}{{.A}}{{end}}{{define "X"}}<a href="/p?q={{template "lnk" .}}">x</a>{{end}}{{define "Y"}}<i>y</i><a href="/p?q={{template "lnk" .}}">y</a>{{end}}<a href="/p?q={{template "lnk" .}}">m</a>`,
 	`{{define "h2"}}<i>{{.}}</i>{{end}}{{define "X"}}<textarea>{{template "h2" .A}}</textarea>{{end}}{{define "Y"}}<textarea>{{template "h2" .B}}</textarea>.{{end}}<textarea>{{template "h2" .A}}</textarea>`,
+	// every way the analysis can fail (the property's list), in more than one spelling: loop re-entry in
+	// an attribute value, ambiguous URL prefixes (also after the same plain prefix was analysed before),
+	// direct and indirect recursion with an uncomputable output context, empty / undefined callees
+	`<a href="{{range .L}}{{.}}:{{end}}">r</a>`,
+	`<a href='{{range .L}}{{.}}:{{else}}/none{{end}}'>r</a>`,
+	`{{define "X"}}<a href="{{range .L}}{{.}}:{{end}}">x</a>{{end}}{{define "Y"}}<ul><li>{{template "X" .}}</li></ul>{{end}}{{define "Z"}}<b>{{.A}}</b>{{end}}m`,
+	`<a title="{{range .L}}x"{{end}}>r</a>`,
+	`{{range .L}}<b {{end}}>`,
+	`<a href="{{if .T}}/a/{{else}}/b?q={{end}}{{.A}}">amb</a>`,
+	`<a href="/a/{{.A}}">1</a><a href="{{if .T}}/a/{{else}}/b?q={{end}}{{.A}}">2</a>`,
+	`{{define "X"}}<a href="/a/{{.A}}">plain</a>{{end}}{{define "Y"}}<a href="{{if .T}}/a/{{else}}/b?q={{end}}{{.A}}">amb</a>{{end}}{{define "Z"}}<p>{{template "Y" .}}</p>{{end}}m`,
+	`{{define "X"}}<script src="/a/{{.A}}"></script>{{end}}{{define "Y"}}<script src="{{if .T}}/a/{{else}}//{{end}}{{.A}}"></script>{{end}}m`,
+	`{{define "X"}}{{if .F}}{{template "Y" .}}{{end}}{{.A}}<a href="{{end}}{{define "Y"}}{{template "X" .}}{{end}}{{define "Z"}}{{template "X" .}}#">z</a>{{end}}m`,
+	`{{define "X"}}{{if .F}}{{template "X" .}}{{end}}{{.A}}<a href="{{end}}{{define "Z"}}{{template "X" .}}#">z</a>{{end}}m`,
+	`{{template "X" .}}#">x</a>{{define "X"}}{{if .F}}{{template "Y" .}}{{end}}{{.A}}<a href="{{end}}{{define "Y"}}<i>{{template "Z" .}}{{end}}{{define "Z"}}{{template "X" .}}{{end}}`,
+	`{{define "X"}}{{template "empty" .}}x{{end}}{{define "Y"}}<b>{{template "missing" .}}</b>{{end}}{{define "empty"}}{{end}}m`,
+	`{{define "X"}}<a href="j{{.A}}">x</a>{{end}}{{define "Y"}}<a href="{{.A}}">y</a>{{end}}{{define "Z"}}<a href="&#106;ava{{.A}}">z</a>{{end}}m`,
+	`{{define "X"}}<b {{if .T}}title{{else}}onclick{{end}}="{{.A}}">x</b>{{end}}{{define "Y"}}<b title="{{.A}}">y</b>{{end}}m`,
+	`{{define "X"}}{{if .T}}<script>{{else}}<p>{{end}}{{.A}}{{end}}{{define "Y"}}<p>{{.A}}</p>{{end}}m`,
+	// helpers that are literal text only, whose text the analysis REWRITES in an HTML text context (a comment is
+	// elided, a '<' that starts no tag is escaped) and keeps verbatim elsewhere, called from different contexts by
+	// different members (a tree shared between derived copies, callers, or the members of a clone family shows)
+	`{{define "st"}}<!-- c --> 1 < 2 {{end}}{{define "X"}}<p>{{template "st"}}</p>{{end}}{{define "Y"}}<script>{{template "st"}}</script>{{end}}{{define "Z"}}<textarea>{{template "st"}}</textarea>{{end}}<i>{{template "st"}}</i>`,
+	`{{define "st"}}1 < 2{{end}}{{define "X"}}<a title="{{template "st"}}">x</a>{{end}}{{define "Y"}}<p>{{template "st"}}</p>{{end}}{{define "Z"}}<a title='{{template "st"}}'>z</a>{{end}}m`,
+	`{{define "st"}}a <!-- gone --> b{{end}}{{define "X"}}<style>{{template "st"}}</style>{{end}}{{define "Y"}}<b>{{template "st"}}</b>{{end}}{{define "Z"}}<title>{{template "st"}}</title>{{end}}{{template "st"}}`,
+	`{{define "st"}}x < y{{end}}{{define "X"}}<b>{{template "st"}}</b>{{end}}{{define "Y"}}<script>if ({{template "st"}}) {}</script>{{end}}{{define "Z"}}{{template "X" .}}{{template "Y" .}}{{end}}top`,
 }
 
-var histNames = []string{"main", "h", "X", "Y", "bad", "callsbad", "rec", "open", "blk", "h2", "lnk", "missing", "other", ""}
+var histNames = []string{"main", "h", "X", "Y", "Z", "st", "bad", "callsbad", "rec", "open", "blk", "h2", "lnk", "missing", "other", ""}
 
 // genHistory builds one random history of about n ops.
 func genHistory(n int) []histOp {
